@@ -72,7 +72,7 @@ STRUCTURAL = ("stray_endif", "stray_else", "stray_endr", "stray_endm", "untermin
 
 @st.composite
 def case(draw, pools):
-    p = draw(progs.structured_program(pools))
+    p = draw(progs.structured_program(pools, cpus=sorted(pools)))
     typ = draw(st.sampled_from(TYPES))
     listing = draw(st.booleans())
     corrupt = draw(st.integers(0, 3)) != 0
@@ -115,7 +115,7 @@ def apply_corruption(p, cor):
         at = min(pos[2], len(bl) - 1)
         bl.insert(at, text)
         files[pos[1]] = (name, "\n".join(bl))
-        ctx = "include"
+        ctx = {"if_taken": "include_in_if", "if_untaken": "include_untaken"}.get(getattr(p, "file_ctx", {}).get(pos[1]), "include")
     else:
         at = pos[1]
         # context of the insertion point = context of the line before it when that line is inside a block
@@ -143,7 +143,7 @@ def apply_corruption(p, cor):
 
 def assembled(ctx, p):
     """is a statement at this context actually assembled?"""
-    if ctx in ("top", "include", "repeat", "if_taken"):
+    if ctx in ("top", "include", "include_in_if", "repeat", "if_taken"):
         return True
     if ctx.startswith("macro:"):
         return ctx[6:] in p.macro_invoked
@@ -244,7 +244,9 @@ def run(tier, seed, shard, nshards):
     s = Stats()
     w = Worker("c12")
     ck = Checker(s, w)
-    pools = progs.make_pools(w, progs.GEN_CPUS)
+    # every CPU with an instruction corpus (error paths differ per back end: dspic defers its failure to a sticky flag)
+    c12_cpus = sorted(set(progs.GEN_CPUS) | set(progs.CPU_FILES))
+    pools = progs.make_pools(w, c12_cpus)
 
     def test(c):
         p, typ, listing, cor = c
@@ -256,8 +258,13 @@ def run(tier, seed, shard, nshards):
         src, files, ctx = apply_corruption(p, cor)
         kind, text, must, pos = cor
         must_reject = must and assembled(ctx, p)
-        if kind in STRUCTURAL and ctx not in ("top", "include"):
+        if kind in STRUCTURAL and ctx not in ("top", "include", "include_in_if"):
             must_reject = False     # inside another block a structural directive may pair up with the block
+        if kind == "stray_else" and ctx == "include_in_if":
+            # an .else in a file that is included from inside an open .if could be read as that conditional's .else;
+            # every other structural corruption there is an error under either reading (a stray .endif would close
+            # the includer's .if and make its own .endif stray)
+            must_reject = False
         res = ck.run(src, files, typ, listing, p.cpu, kind, ctx, must_reject)
         s.count("corrupt." + res)
         s.count("ctx." + (ctx.split(":")[0]))
@@ -269,7 +276,7 @@ def run(tier, seed, shard, nshards):
                 s.sample(dict(kind=kind, context=ctx, result=res, tail=src[-300:]))
 
     try:
-        n = 500 if tier == "quick" else 6000
+        n = 1500 if tier == "quick" else 8000
         hyp_run(test, case(pools), n, shard_seed(seed, shard, "c12"), s)
     finally:
         ck.close()
